@@ -547,3 +547,13 @@ const _: () = {
         }
     }
 };
+
+#[cfg(ohkami_verif)]
+#[cfg(feature="__rt_native__")]
+impl Response {
+    #[doc(hidden)]
+    /// the number of bytes `send` reserves for this response (status line + headers + payload)
+    pub fn __verif_declared_size(&self) -> usize {
+        self.status.line().len() + self.headers.size + self.content.as_bytes().map_or(0, |b| b.len())
+    }
+}
